@@ -154,6 +154,9 @@ def strategy():
     other = st.fixed_dictionaries({'kind': st.sampled_from(['none', 'bytes']), 'text': st.sampled_from(['', 'Traceback (most recent call last):\nValueError: <zq9r>', '<zq9s>', '\xff\xfe'])})
     import os as _os, werkzeug as _wz, clastic as _cl, json as _js
     site = [_os.__file__, _wz.__file__, _cl.__file__, _os.path.join(_os.path.dirname(_cl.__file__), 'route.py'), _js.__file__]
+    # names that merely share a string prefix with a library directory without lying inside it, and the directories themselves
+    for d_ in (_os.path.dirname(_cl.__file__), _os.path.dirname(_wz.__file__), _os.path.dirname(_os.__file__)):
+        site += [d_ + '_site/settings.py', d_ + '-demo.py', d_ + '-extras/plugin.py', d_, d_ + '/', d_ + '.py']
     files = st.one_of(st.none(), st.just([]),
                       st.lists(st.one_of(st.sampled_from(site), st.sampled_from(['/app/main.py', '/srv/<zq9t>.py', 'a.py'])), min_size=1, max_size=5, unique=True),
                       st.lists(st.one_of(st.sampled_from(['/app/main.py', 'a.py', '/srv/<zq9t>.py', '/x/"zq9u".py', "/y/'zq9v'.py", '/é/中.py', '/w/{zq9w}.py',
